@@ -54,6 +54,7 @@ RULES: Dict[str, Callable] = {
     "R-DTYPE": _cached("R-DTYPE", construct.run_dtype),
     "R-PAIR": _cached("R-PAIR", construct.run_pair),
     "R-COLIDX": _cached("R-COLIDX", construct.run_colidx),
+    "R-TERMZIP": _cached("R-TERMZIP", construct.run_termzip),
     "R-DELEGATE": _cached("R-DELEGATE", wrappers.run_delegate),
     "R-ORDER": _cached("R-ORDER", wrappers.run_order),
     "R-FWD": _cached("R-FWD", wrappers.run_fwd),
@@ -131,6 +132,7 @@ PLAN: Dict[str, dict] = {
             G("R-OPT-PINNED", "alignment pins the retain flags, so aligned operands keep one layout under every option setting", only=in_files("numpoly/align.py")),
             S("R-DTYPE", "result dtype of a combination depends on all operands", only=COMBINING),
             G("R-ALIGNFN", "align_exponents rebuilds every operand (consumers read .values of fresh, contiguous results)", only=msg("operand not rebuilt", "align_shape: broadcast")),
+            G("R-CAST", "every operation builds its result through polynomial_from_attributes: cast before the raw write, raw writer only for dtypes it implements"),
             G("R-POWER", "scalar power = one multiplied by the base exactly n times"),
             G("R-VALUES", "operands that are strided views are read in the right element order"),
             G("R-CLEAN", "the clean-up after each operation drops exactly the all-zero non-constant terms", only=in_funcs("remove_redundant_coefficients")),
@@ -154,6 +156,7 @@ PLAN: Dict[str, dict] = {
             G("R-OPT-PINNED", "alignment keeps one layout under every option setting (operands with different name sets)", only=in_files("numpoly/align.py")),
             G("R-UNSIGNED", "no caller value meets an unsanitised uint32 exponent (value independent of the argument's type)", only=in_funcs("call")),
             G("R-NAMES", "the indeterminates handed to the evaluation loop (iteration over poly.indeterminants) keep their names", only=in_files("numpoly/baseclass.py", "poly_function/call.py")),
+            G("R-TERMZIP", "the evaluation loop pairs each exponent row with its own coefficient", only=in_funcs("call")),
         ],
         "explanation": "call(): branches raising TypeError for an unknown and for a doubly supplied indeterminate exist and every "
                        "path into the evaluation loop passed the unknown-name guard; numpoly.outer and numpy.outer receive the same "
@@ -172,6 +175,8 @@ PLAN: Dict[str, dict] = {
             G("R-OPT-LAYERS", "retain_* options only replace an omitted (None) argument", only=msg("'retain_")),
             G("R-CLEAN", "exactly the all-zero non-constant terms and the unused names are dropped", only=in_funcs("remove_redundant_coefficients", "remove_redundant_names")),
             G("R-CAST", "every coefficient array is cast to the coefficient dtype before the raw write"),
+            G("R-VALUES", "the raw structured view of a strided / Fortran-ordered polynomial holds the same elements as its coefficients"),
+            G("R-TERMZIP", "keys, exponent rows and coefficients of one polynomial are paired term by term in one order"),
         ],
         "explanation": "Construction goes through validated constructors: every normal return of postprocess_attributes passed the "
                        "2-d / length / name-count / duplicate-name / duplicate-exponent checks; encode/decode of storage keys use "
@@ -187,6 +192,7 @@ PLAN: Dict[str, dict] = {
             G("R-ALIAS", "no argument is modified", only=in_files("numpoly/align.py")),
             G("R-NAMES", "rebuilt operands keep their names", only=in_files("numpoly/align.py")),
             G("R-OPT-TABLE", "the options the alignment reads (default_varname, retain_*) cannot be left half-set by a rejected or interrupted option call"),
+            G("R-CAST", "aligned operands are rebuilt through polynomial_from_attributes: cast before the raw write, raw writer only for dtypes it implements"),
         ],
         "explanation": "Each align_* function returns tuple(list of per-argument images) in argument order where slot i is only "
                        "replaced by a value computed from argument i; the common shape / names / exponents are computed over all "
@@ -217,6 +223,7 @@ PLAN: Dict[str, dict] = {
             G("R-GRAD", "gradient stacks derivative over all names in order; hessian = gradient of gradient"),
             G("R-ALIGNFN", "the re-alignment after each step keeps the indeterminates in integer index order", only=msg("sorted by int", "sort key")),
             S("R-NAMES", "gradient/hessian join the partial derivatives under the polynomial's own names"),
+            G("R-GETITEM", "an indeterminate obtained by indexing is a single monomial (elements are not built with retain_coefficients=True)", only=msg("retain_coefficients")),
             S("R-ALIGN", "derivative re-aligns with the reference after each variable"),
             G("R-OPT-PINNED", "alignment keeps one layout under every option setting (operands with different name sets)", only=in_files("numpoly/align.py")),
         ],
@@ -234,6 +241,7 @@ PLAN: Dict[str, dict] = {
             S("R-ORDER", "operands of the comparison ufuncs in parameter order"),
             S("R-ALIGN", "columns compared by position only after alignment"),
             S("R-DTYPE", "maximum/minimum select between the operands in a dtype depending on both", only=COMBINING),
+            G("R-OPT-TABLE", "the sort options the order depends on cannot be left half-set or unrestored by a rejected / interrupted option call"),
             G("R-OPT-PINNED", "alignment keeps one layout under every option setting (operands with different name sets)", only=in_files("numpoly/align.py")),
         ],
         "explanation": "greater/greater_equal/less/less_equal walk the aligned terms in ascending glexsort(sort_graded, "
@@ -296,6 +304,7 @@ PLAN: Dict[str, dict] = {
             S("R-KEYS", "result buffers are fully written"),
             G("R-PRODAXES", "prod over an axis tuple reduces and re-inserts each axis in one traversal"),
             G("R-OUTER", "outer flattens both operands like numpy.outer"),
+            S("R-NAMES", "matmul / the joiners re-wrap every operand's storage with that operand's own names"),
             G("R-OPS", "the reduction methods (sum/cumsum/mean/prod) forward every parameter to the function spelling", only=in_funcs("sum", "cumsum", "mean", "prod", "__matmul__", "__rmatmul__")),
         ],
         "explanation": "sum/cumsum/mean dispatch their namesake per aligned key with axis/dtype/keepdims forwarded; diff aligns a, "
@@ -328,7 +337,7 @@ PLAN: Dict[str, dict] = {
             G("R-KEYS", "no raw buffer escapes unwritten (including empty results)"),
             G("R-CAST", "data is cast to the buffer dtype before the raw write, writers only for dtypes they implement"),
             G("R-DTYPE", "requested dtype reaches every constructed polynomial; combined results depend on all operand dtypes"),
-            G("R-CLEAN", "a result whose terms were all filtered away keeps the shape and dtype of its inputs", only=msg("zero fall-back")),
+            G("R-CLEAN", "a result whose terms were all filtered away (or that has no element at all) keeps the shape and dtype of its inputs", only=msg("zero fall-back", "clean_attributes: dtype")),
             G("R-POWER", "the constant one that seeds a power carries the base's dtype", only=msg("dtype of the initial one")),
         ],
         "explanation": "The C writers' dtype switch is read from the .pyx (cannot be rebuilt here): arms, element/pointer types, "
@@ -372,6 +381,7 @@ PLAN: Dict[str, dict] = {
             G("R-NAMES", "names never fall back to positional defaults when storage is re-wrapped"),
             G("R-LAYOUT", "derivative's column indices never meet an option-dependent names layout"),
             G("R-CALLTAIL", "partial evaluation re-aligns by name, not by position"),
+            G("R-OPT-TABLE", "an option setting is in force exactly inside its with-block: no leak on exceptions, rejected calls or library-internal set_options"),
         ],
         "explanation": "Who-may-read layering of the 12 option keys over all 33 read sites; retain_* only replace a None argument; "
                        "graded=/reverse= receive *_graded/*_reverse of the right family or the function's own parameters; "
@@ -386,6 +396,7 @@ PLAN: Dict[str, dict] = {
             G("R-OPT-PAIRING", "display_graded/display_reverse paired with graded/reverse", only=in_files("array_function/array_repr.py")),
             G("R-STABLE", "term order platform independent"),
             G("R-PAIR", "sympy import pairs monoms() and coeffs() of one ordering", only=msg("monoms")),
+            G("R-OPT-TABLE", "the display options in force are the ones the caller set: no partial update by a rejected call, no leak, library code restores what it changes"),
         ],
         "explanation": "_to_string: display_graded/display_reverse are only arguments of the glexsort that orders the terms, "
                        "display_inverse only guards a full reversal, the loop iterable is glexsort(all exponents) or its complete "
@@ -423,6 +434,7 @@ PLAN: Dict[str, dict] = {
             G("R-CLEAN", "isconstant ignores exactly the constant term", only=in_funcs("isconstant")),
             S("R-SIG", "amax/amin reach a signature-valid reshape"),
             G("R-STABLE", "the monomial order behind the leading-term queries is platform independent"),
+            G("R-TERMZIP", "decompose/todict pair each key with its own exponent row and coefficient", only=in_files("poly_function/", "baseclass.py")),
         ],
         "explanation": "lead_exponent and lead_coefficient are the same ascending glexsort(graded, reverse) walk overwriting where "
                        "the coefficient is non-zero from a zero-initialised result; tonumpy raises FeatureNotSupported unless "
@@ -436,7 +448,7 @@ PLAN: Dict[str, dict] = {
             G("R-PYX-MUL", "the product-key builder does not narrow"),
             G("R-EXPDTYPE", "exponent matrices are never created with a coefficient dtype"),
             G("R-COLIDX", "differentiation decrements the exponent column of the variable asked for"),
-            G("R-UNSIGNED", "uint32 exponents are never scaled by a run-time value without widening (silent wrap at 2**32)", only=msg("wraps silently")),
+            G("R-UNSIGNED", "uint32 exponents are never scaled by a run-time value without widening (silent wrap at 2**32)", only=msg("wraps silently", "numpy.uint32 exponent")),
             G("R-HEADER", "header delimiters are outside the key alphabet; decoding is strict", only=msg("delimiter", "errors=", "HEADER_TEMPLATE")),
             G("R-ALIAS", "the constructor does not shift a caller's exponent array in place", only=lambda f: f.function.endswith("__new__") or "numpoly/construct/" in f.relpath),
         ],
